@@ -91,6 +91,9 @@ class CT:
         return f"<CT {self.id} {self.name} {self.state} on={self.blocked_on}>"
 
 
+SLOW_VISITS = 60
+
+
 class Scheduler:
     def __init__(self, choices=None, line_preempt=False, trace_prefix=None, max_steps=400000, line_holds=False):
         self.now = 0.0
@@ -117,6 +120,7 @@ class Scheduler:
         # targeted preemption: [thread name, point kind, nth visit, release predicate, max virtual delay, visits so far]
         self.holds = []
         self.holds_taken = 0
+        self.visits = {}            # (thread name, point kind) -> number of visits so far
         self.step_hook = None       # optional observer called at every scheduling point (must not block or schedule)
         self.quantum = 0            # library jumps executed since the last scheduling point (spin detection)
         self.spins = []
@@ -240,16 +244,25 @@ class Scheduler:
 
     def _point(self, cur, kind, pred, timeout, line):
         self.quantum = 0
+        self.visits[(cur.name, kind)] = self.visits.get((cur.name, kind), 0) + 1
         if self.step_hook is not None and not self.killing:
             self.step_hook(cur, kind)
         if self.holds and not self.killing and not kind.startswith("held:"):
             for h in self.holds:
                 if h[0] == cur.name and h[1] == kind:
                     h[5] += 1
-                    if h[5] == h[2]:
+                    # nth == 0: at every visit ("slow motion" at that kind of point) - the first SLOW_VISITS ones only, so that the
+                    # total delay stays far below the checks' liveness horizons (a slow thread is not a stuck thread)
+                    if h[5] == h[2] or (h[2] == 0 and h[5] <= SLOW_VISITS):
                         # the thread is simply not scheduled until the release predicate holds (or max delay passes)
                         self.holds_taken += 1
-                        self._point(cur, "held:" + kind, h[3], h[4], None)
+                        rel = h[3]
+                        if isinstance(rel, tuple):
+                            # ("until", thread, kind): released once that thread has passed a point of that kind again
+                            _, ut, uk = rel
+                            base = self.visits.get((ut, uk), 0)
+                            rel = (lambda ut=ut, uk=uk, base=base: self.visits.get((ut, uk), 0) > base)
+                        self._point(cur, "held:" + kind, rel, h[4], None)
                         break
         self.steps += 1
         cur.steps += 1
